@@ -190,6 +190,89 @@ func tablesMain(repo string) {
 		}
 		fmt.Fprintf(&b, "(%d, %d, %d, %d)", litInt(c.Elts[0]), litInt(c.Elts[1]), litInt(c.Elts[2]), litInt(c.Elts[3]))
 	}
+	b.WriteString("].\n\n")
+
+	// decode/decode.go: decodeDrawing's switch on the high nibble of a drawing opcode below 0xe0
+	dec := parseFile(filepath.Join(repo, "decode", "decode.go"))
+	b.WriteString("(* decode/decode.go decodeDrawing, `switch opcode >> 4`: (high nibble, (verb character, nCoords, repeat-count mask)) *)\n")
+	b.WriteString("Definition decDrawNibbles : list (Z * (Z * Z * Z)) :=\n  [")
+	type nib struct{ n, verb, nco, mask int64 }
+	var nibs []nib
+	var defaultMask int64 = -1
+	for _, d := range dec.Decls {
+		fd, ok := d.(*ast.FuncDecl)
+		if !ok || fd.Name.Name != "decodeDrawing" {
+			continue
+		}
+		ast.Inspect(fd.Body, func(n ast.Node) bool {
+			// op, nCoords, nReps := "", 0, 1+int(opcode&0x0f)   gives the default mask
+			if as, ok := n.(*ast.AssignStmt); ok && len(as.Lhs) == 3 && len(as.Rhs) == 3 {
+				if id, ok := as.Lhs[2].(*ast.Ident); ok && id.Name == "nReps" {
+					defaultMask = repMask(as.Rhs[2])
+				}
+			}
+			sw, ok := n.(*ast.SwitchStmt)
+			if !ok || sw.Tag == nil {
+				return true
+			}
+			be, ok := sw.Tag.(*ast.BinaryExpr)
+			if !ok || be.Op != token.SHR {
+				return true
+			}
+			for _, c := range sw.Body.List {
+				cc := c.(*ast.CaseClause)
+				e := nib{verb: -1, nco: 0, mask: -1}
+				for _, st := range cc.Body {
+					as, ok := st.(*ast.AssignStmt)
+					if !ok || len(as.Lhs) != 1 {
+						continue
+					}
+					switch as.Lhs[0].(*ast.Ident).Name {
+					case "op":
+						str, _ := strconv.Unquote(as.Rhs[0].(*ast.BasicLit).Value)
+						e.verb = int64(str[0])
+					case "nCoords":
+						e.nco = litInt(as.Rhs[0])
+					case "nReps":
+						e.mask = repMask(as.Rhs[0])
+					}
+				}
+				for _, v := range cc.List {
+					x := e
+					x.n = litInt(v)
+					nibs = append(nibs, x)
+				}
+			}
+			return false
+		})
+	}
+	sort.Slice(nibs, func(i, j int) bool { return nibs[i].n < nibs[j].n })
+	for i, e := range nibs {
+		if e.mask < 0 {
+			e.mask = defaultMask
+		}
+		if i > 0 {
+			b.WriteString(";\n   ")
+		}
+		fmt.Fprintf(&b, "(%d, (%d, %d, %d))", e.n, e.verb, e.nco, e.mask)
+	}
 	b.WriteString("].\n")
 	fmt.Print(b.String())
+}
+
+// repMask returns m for an expression of the form 1 + int(opcode & m); -1 otherwise.
+func repMask(e ast.Expr) int64 {
+	be, ok := e.(*ast.BinaryExpr)
+	if !ok || be.Op != token.ADD || litInt(be.X) != 1 {
+		return -1
+	}
+	call, ok := be.Y.(*ast.CallExpr)
+	if !ok || len(call.Args) != 1 {
+		return -1
+	}
+	and, ok := call.Args[0].(*ast.BinaryExpr)
+	if !ok || and.Op != token.AND {
+		return -1
+	}
+	return litInt(and.Y)
 }
